@@ -123,6 +123,10 @@ def run(ctx, config='rel-all'):
                     ctx.ok('R4', '%s %s via %s: new == round_down(old, A) - round_up(size, A) with A in {MIN_ALIGN, align}' % (fn, site, key), 'per-alternative term identity')
                 else:
                     ctx.violation('R4', fn, site + ':inexact-bump', 'the finger is not lowered by exactly the rounded size below the aligned old finger (%s): padding bytes would appear between uniform allocations' % show(e.val)[:140], e.span)
+            elif cls in ('SAVED', 'EMPTY'):
+                # a rewind raises the finger: unless it is gated on the abandoned block being the last allocation, blocks
+                # the caller still holds end up above the finger and vanish from the iterated slices (shared with C01.R3 / C11.R4)
+                c01.check_finger_store(ctx, key, I, res, e, fn, o, '%s [%s]' % (loc(e.span), arena.stack_str(e)), set(c01.ENTRY_AXIOMS.get(key, ())), rules={'R1': 'R4', 'O2': 'R4', 'R3': 'R4'})
             else:
                 ctx.ok('R4', '%s %s via %s: class %s' % (fn, site, key, cls), 'store classification')
     ctx.floor('R4', nb, 10, 'BUMP stores checked for exactness')
